@@ -130,6 +130,8 @@ class Runner:
         root = os.path.join(S, "root")
         os.makedirs(root)
         os.makedirs(os.path.join(S, "outside"))
+        if callable(archive):
+            archive = archive(S)
         with open(os.path.join(S, "archive.lzh"), "wb") as f:
             f.write(archive)
         os.utime(os.path.join(S, "archive.lzh"), (archive_mtime, archive_mtime))
